@@ -164,7 +164,17 @@ func rvMenu(v uint8) []menuVal {
 		return append(ok("822f41aa", "82382a5830"+strings.Repeat("ab", 48), "820040", "82056101"),
 			bad("812f", "832f41aa00", "8241004100", "", "01", "822f41aa00", "f6", "822f")...)
 	case 15:
-		return append(ok("8163616263", "836178010203"[:10]+"02", "826178f6", "81606f"[:4], "826178820102"),
+		// also argument counts around the CBOR inline-length limit (23): mechanism + 22, 23, 24, 39, 255, 256 arguments
+		many := func(n int) string {
+			h := fmt.Sprintf("98%02x", n)
+			if n < 24 {
+				h = fmt.Sprintf("%02x", 0x80+n)
+			} else if n > 255 {
+				h = fmt.Sprintf("99%04x", n)
+			}
+			return h + "6178" + strings.Repeat("01", n-1)
+		}
+		return append(ok("8163616263", "836178010203"[:10]+"02", "826178f6", "81606f"[:4], "826178820102", many(23), many(24), many(25), many(40), many(256), many(257)),
 			bad("", "80", "01", "8101", "81", "f6", "a0", "6161")...)
 	}
 	return ok("", "00")
